@@ -132,7 +132,9 @@ def _dow_window(lo, hi, props):
 
 @spec("ruleAtDOW")
 def _atdow(env, ts, m, dow, res):
-    return [("this-weekday", ["C03"], _dow_window(1, 7, None)(ts, dow, res))]
+    # C20: "on friday 5pm" goes through this rule, "on friday" alone through the connecting-word rule and
+    # ruleLatentDOW; both contracts name the same day, so adding a clock cannot move it
+    return [("this-weekday", ["C03", "C20"], _dow_window(1, 7, None)(ts, dow, res))]
 
 
 @spec("ruleNextDOW")
@@ -147,7 +149,7 @@ def _downext(env, ts, dow, m, res):
 
 @spec("ruleLatentDOW")
 def _latentdow(env, ts, dow, res):
-    return [("bare-weekday", ["C03", "C04"], _dow_window(1, 7, None)(ts, dow, res))]
+    return [("bare-weekday", ["C03", "C04", "C20"], _dow_window(1, 7, None)(ts, dow, res))]
 
 
 @spec("ruleNamedDOW")
